@@ -76,14 +76,23 @@ def oracle(sc, res, rep, case):
                 del store[key]
 
     def missing(t, amb=False):
-        """expected entries; with amb=True also the variant in which entries expiring exactly now are already gone"""
+        """expected entry lists; with amb=True every entry whose deadline is exactly now may or may not have been removed
+        already (its expiry callback and the find round fall into the same loop iteration, in an order the scheduler
+        chooses - and it chooses independently for each such entry)"""
         def calc(st):
             return [sdio.entry_tok(f.create_find_entry(tm.findTtl)) for f in filters if not any(f_accepts(f, svc) for (_p, svc) in st)]
-        a = calc(store)
         if not amb:
-            return [a]
-        b = calc({k: v for k, v in store.items() if v is None or v > t})
-        return [a] if a == b else [a, b]
+            return [calc(store)]
+        maybe = [k for k, v in store.items() if v is not None and v <= t]
+        sure = [k for k, v in store.items() if v is None or v > t]
+        res = []
+        for mask in range(1 << min(len(maybe), 10)):
+            st = sure + [k for i, k in enumerate(maybe) if mask >> i & 1 or i >= 10]
+            c = calc(st)
+            if c not in res:
+                res.append(c)
+        res.sort(key=len)
+        return res
 
     for it in sc.rec.items:
         if it[0] == "in":
